@@ -163,6 +163,14 @@ def components(fl, engine):
     return [c for c in out if c is not None]
 
 
+def assign_defaults(engine, spec):
+    """attributes assigned after construction (what an importer or an application does) hold exactly what was assigned"""
+    by_name = {o["name"]: o for o in spec["outputs"]}
+    for ov in engine.output_variables:
+        if ov.name in by_name:
+            ov.default_value = by_name[ov.name]["default_value"]
+
+
 def dedicated(fl, exporter, c):
     """the exporter's own method for this kind of component"""
     for cls, name in ((fl.Engine, "engine"), (fl.InputVariable, "input_variable"), (fl.OutputVariable, "output_variable"), (fl.RuleBlock, "rule_block"), (fl.Term, "term"), (fl.Norm, "norm"), (fl.Activation, "activation"), (fl.Defuzzifier, "defuzzifier"), (fl.Rule, "rule")):
@@ -207,12 +215,9 @@ def run(ctx):
                     ctx.hit(f"inconclusive:generated engine does not build: {type(ex).__name__}: {str(ex)[:60]}")
                     continue
                 ctx.hit("route:" + spec["route"])
-                if rnd.random() < 0.5:
-                    # attributes assigned after construction (what an importer or an application does) hold exactly what was assigned
-                    by_name = {o["name"]: o for o in spec["outputs"]}
-                    for ov in engine.output_variables:
-                        if ov.name in by_name:
-                            ov.default_value = by_name[ov.name]["default_value"]
+                spec["assign_defaults"] = rnd.random() < 0.5
+                if spec["assign_defaults"]:
+                    assign_defaults(engine, spec)
                     ctx.hit("workload:attributes assigned after construction")
                 if rnd.random() < 0.3:
                     E.retype(ctx, fl, rnd, engine)
@@ -278,6 +283,8 @@ def same_outputs(ctx, fl, rnd, spec, engine, back):
     rows = E.rows(rnd, spec, 5)
     blocks = [[r] for r in rows[:3]] + ([rows[3:]] if general else [[r] for r in rows[3:]])
     fresh = E.build(fl, spec)
+    if spec.get("assign_defaults"):
+        assign_defaults(fresh, spec)
     for block in blocks:
         outs = []
         for e in (fresh, back):
